@@ -39,3 +39,13 @@ made = make()
 def deco(x):
     v = x + 5
     return v
+
+
+def way(x):
+    return top(x)
+
+
+class Box:
+    class Lid:
+        def open(self, x):
+            return top(x)
